@@ -33,6 +33,10 @@ RULE = ("Substances all carry compositions: synthetic keys with explicit composi
         "substances, also those of the families, get their charge in the dict or through Substance(charge=), including "
         "pure charge carriers (Substance('e-', charge=-1, composition={}), holes); every Substance object is first compared "
         "with the description (composition incl. key 0, .charge).  "
+        "Each 'admit' case is a short history in one process: 0-2 earlier constructions of the same description through "
+        "dont_check= / checks= (subsets of the four ReactionSystem check names, ReactionSystem or EqSystem), then the judged "
+        "construction with default arguments; ReactionSystem/EqSystem/Reaction/Equilibrium.default_checks are reset to "
+        "the sets read from the source at the start of a case and must be unchanged at its end.  "
         "The expected verdict is recomputed from the description with exact integer / Fraction arithmetic.  "
         "Non-trivial = (>= 2 reactions and a charged substance) or a charge-only rejection; distinct by case digest.")
 ASSUMPTIONS = [
@@ -170,8 +174,49 @@ def check_balance_vectors(ctx, rsys, case, what):
 # admit: accepted iff balanced
 # ---------------------------------------------------------------------------------------------------
 
+# the class-level sets of optional checks as read from the source (chempy/reactionsystem.py, chempy/chemistry.py)
+SYSTEM_CHECKS = frozenset(G.SYSTEM_CHECKS)
+REACTION_CHECKS_DEFAULT = frozenset(["any_effect", "all_positive", "all_integral", "consistent_units"])
+
+
+def class_defaults(M):
+    return [("ReactionSystem", M["ReactionSystem"], SYSTEM_CHECKS), ("EqSystem", M["EqSystem"], SYSTEM_CHECKS),
+            ("Reaction", M["Reaction"], REACTION_CHECKS_DEFAULT), ("Equilibrium", M["Equilibrium"], REACTION_CHECKS_DEFAULT)]
+
+
 def check_admit(case, ctx):
+    """One case = a short history in one process: 0-2 earlier constructions through dont_check= / checks=, then the judged
+    construction with default arguments; the class-level default_checks must be what they were."""
     M = _mods()
+    # every case starts from pristine class attributes (a case must not inherit what an earlier case of this process may
+    # have done to them; on the unchanged tree this changes nothing)
+    for _, cls, want in class_defaults(M):
+        if cls.default_checks != want:
+            owner = next(k for k in cls.__mro__ if "default_checks" in vars(k))
+            owner.default_checks = set(want)
+    earlier_constructions(M, case, ctx)
+    check_admit_verdict(M, case, ctx)
+    for nm, cls, want in class_defaults(M):
+        if cls.default_checks != want:
+            ctx.fail("default_checks_changed_by_construction", cls=nm, got=sorted(cls.default_checks), expected=sorted(want))
+            return
+
+
+def earlier_constructions(M, case, ctx):
+    balanced = not any(G.violations(case["subs"], rx) for rx in case["rxns"])
+    for b in case.get("before") or ():
+        ctx.label("before:%s%s" % (b["arg"], "(balance)" if "balance" in b["names"] else ""))
+        kw = {"dont_check": set(b["names"])} if b["arg"] == "dont_check" else {"checks": tuple(b["names"])}
+        cls = "Equilibrium" if b["route"] == "eqsys" else "Reaction"
+        rxns = make_reactions(M, case, [j + 1 for j in range(len(case["rxns"]))], cls)
+        res = sut(construct, M, dict(case, route=b["route"]), rxns, make_substances(M, case), **kw)
+        # judged only where the balance check was asked for (the statement says nothing about a system built without it)
+        if ("balance" in b["names"]) == (b["arg"] == "checks") and is_err(res) == balanced:
+            ctx.fail("earlier_construction_with_balance_check", arg=b["arg"], names=b["names"], balanced=balanced,
+                     error=repr(res) if is_err(res) else None)
+
+
+def check_admit_verdict(M, case, ctx):
     charged = describe(case, ctx)
     viol = [G.violations(case["subs"], rx) for rx in case["rxns"]]
     balanced = not any(viol)
@@ -399,7 +444,7 @@ def check_dynamics(case, ctx):
 
 
 SUBCHECKS = [
-    SubCheck("admit", check_admit, strategy=G.composed_systems(max_rxn=6, dyadic_share=4, massless_share=2), quick=2000, thorough=60000,
+    SubCheck("admit", check_admit, strategy=G.composed_systems(max_rxn=6, dyadic_share=4, massless_share=2, history=True), quick=2000, thorough=60000,
              rule="1-6 reactions, one of them possibly broken; constructor verdict, error message, check_balance, "
                   "composition_balance_vectors, charge/mass violation helpers",
              tolerances={"mass_balance_rel_sum_abs": TOL_MASS}),
